@@ -186,6 +186,9 @@ func (e *execution[R]) RecordResult(result *common.PolicyResult[R]) *common.Poli
 		e.lastResult = result.Result
 		e.lastError = result.Error
 	}
+	// The attempt is over: a cancellation result that a Timeout inside it recorded must not be reported for a later
+	// cancellation of the execution, such as one that arrives while waiting to retry
+	*e.canceledResult = nil
 	return nil
 }
 
